@@ -121,7 +121,8 @@ Print Assumptions C20_shared_connect_header_refuted.
 (* ----- one Request executed again, credential setters in between ----- *)
 
 (* for ALL sequences of Client.SetCommonBasicAuth / SetCommonBearerAuthToken, Request.SetBasicAuth /
-   SetBearerAuthToken and executions of one Request: every execution transmits the credentials
+   SetBearerAuthToken and executions of one Request - plain ones and ones whose first attempt is
+   retried (the retry sends what the first attempt sent): every transmission carries the credentials
    given - the latest set on the request if any ever was, otherwise the client's current ones
    (merge bookkeeping of parseRequestHeader / unmergeClientSettings by slice identity) *)
 Theorem C20_reexecution_transmits_given : forall ops,
@@ -561,6 +562,28 @@ Theorem C20_resend_takes_callers_route : forall installed_on calling,
   (installed_on <> calling -> resend_route_bound installed_on calling <> calling).
 Proof. intros i j. split; [reflexivity|]. intros Hne. exact Hne. Qed.
 Print Assumptions C20_resend_takes_callers_route.
+
+(* the challenge response is released before the re-send: under a per-host connection limit the
+   re-send is never blocked by the 401 of its own call, whether or not that body was read *)
+Theorem C20_resend_not_blocked_by_own_401 : forall limit others unread,
+  others < limit -> resend_gets_connection limit others unread true = true.
+Proof. exact resend_not_blocked_by_own_401. Qed.
+Print Assumptions C20_resend_not_blocked_by_own_401.
+
+Theorem C20_hold_401_until_answer_refuted :
+  resend_gets_connection 1 0 true false = false /\ resend_gets_connection 1 0 true true = true.
+Proof. exact hold_401_until_answer_refuted. Qed.
+Print Assumptions C20_hold_401_until_answer_refuted.
+
+(* re-execution after a retried execution: RetryAttempt is reset by every execution; resetting it
+   only when something had been merged leaves a previously retried request without the client's
+   credentials for good *)
+Theorem C20_reset_if_merged_refuted :
+  let ops := [SendR; CBearer (bs "tok"); Send] in
+  rq_run rq_init ops = [None; None; Some (bearer_header (bs "tok"))] /\
+  rq_run_with unmerge_identity reset_if_merged rq_init ops = [None; None; None].
+Proof. exact reset_if_merged_refuted. Qed.
+Print Assumptions C20_reset_if_merged_refuted.
 
 (* ----- several WWW-Authenticate lines (one scheme each) ----- *)
 
